@@ -3,17 +3,20 @@ import numpy as np
 
 
 class Forcing:
-    def __init__(self, modules, u=0, v=0, w=0, temp=None, **kw):
+    def __init__(self, modules, u=0, v=0, w=0, temp=None, log=None, **kw):
         self.modules = modules
         self.u, self.v, self.w, self.temp = u, v, w, temp
         self.variables = {}
         self.closed = 0
         self.updates = []
+        self.log = log
 
     def update(self):
         state = self.modules["state"]
         n = len(state.X)
         self.updates.append((self.modules["time"].step, n))
+        if self.log is not None:
+            self.log.append(("forcing", self.modules["time"].step, list(state.pid), list(state.X), list(state.alive)))
         self.variables["u"] = np.zeros(n) + self.u
         self.variables["v"] = np.zeros(n) + self.v
         self.variables["w"] = np.zeros(n) + self.w
@@ -27,3 +30,5 @@ class Forcing:
 
     def close(self):
         self.closed += 1
+        if self.log is not None:
+            self.log.append(("close", "forcing"))
